@@ -27,6 +27,26 @@ MCInitKinds ==
   /\ InitState
 MCSpecKinds == MCInitKinds /\ [][Next]_vars
 
+\* Any acyclic dependency relation, not only "later tasks wait for earlier ones": the change's task order
+\* (creation order) is then independent of the dependency order. Used to characterise the known finding
+\* "Change.Abort/AbortUnreadyLanes panics when a pending task precedes a Done task" (known_findings.json):
+\* panicked states are terminal (the real code panics), everything else must still hold, and the panic
+\* must be reachable only through a user/prune abort, never through the engine's own failure handling.
+RECURSIVE ReachFrom(_, _)
+ReachFrom(w, S) == LET S2 == S \cup UNION {w[t] : t \in S} IN IF S2 = S THEN S ELSE ReachFrom(w, S2)
+Acyclic(w) == \A t \in Tasks : t \notin ReachFrom(w, w[t])
+MCInitAnyOrder ==
+  /\ waits \in {w \in [Tasks -> SUBSET Tasks] : (\A t \in Tasks : t \notin w[t]) /\ Acyclic(w)}
+  /\ lanes \in [Tasks -> LaneChoices]
+  /\ hasUndo \in [Tasks -> UndoChoices]
+  /\ chgOf = [t \in Tasks |-> 1]
+  /\ kind = [t \in Tasks |-> "neutral"]
+  /\ snap = [t \in Tasks |-> 0]
+  /\ InitState
+MCSpecAnyOrder == MCInitAnyOrder /\ [][~panicked /\ Next]_vars
+PanicOnlyByAbort == panicked => aborted # {}
+AnyOrderOK == panicked \/ (C01 /\ C02 /\ C03_ReadyOnce /\ C03_ReadyIffAllReady /\ C04_NoRedo)
+
 MCSpec == MCInit /\ [][Next]_vars
 MCLive == MCInit /\ [][Next]_vars /\ Fairness
 
